@@ -2,7 +2,8 @@
 
 Case line (see lean/TbotVerif/Model/Life.lean, namespace Wire):
     <bases> <delay> <session>*
-    bases   = comma list over  pg pk (PreConnectInitializer)  cg ck (Connector)  ig ik (Initializer)
+    bases   = comma list over  pg pk (PreConnectInitializer)  cg ck (Connector)  lg lk (lab-host: the connector
+              is then the REAL connector.ConsoleConnector, whose _connect enters host.clone() first)  ig ik (Initializer)
               w (board.PowerControl)  sg sk (Shell)  qg qk (PostShellInitializer)  h (class overrides init());
               second letter = style of the step's context manager (generator / class), id = position
     delay   = powercycle_delay in ticks
@@ -26,7 +27,8 @@ QUICK_N, THOROUGH_N = 15000, 90000
 QUICK_BUDGET, THOROUGH_BUDGET = 40, 600
 CASE_WALL = 20
 RULE = ("machine classes composed with type() from 0-3 instrumented mixins of each kind (PreConnectInitializer, "
-        "Initializer, PostShellInitializer; generator- and class-style context managers), a stub Connector and Shell, "
+        "Initializer, PostShellInitializer; generator- and class-style context managers), a stub Connector (or the real "
+        "ConsoleConnector over a stub lab-host) and Shell, "
         "board.PowerControl at every position among the initialisers, optional init() override, bases mostly in "
         "documented order and sometimes shuffled; 1-3 sessions on one machine object, each nesting the context 1-4 "
         "times with markers and an optional raise, with no / one / two / several injected faults over every enter, "
@@ -41,7 +43,7 @@ ASSUMPTIONS = ["no step's context manager suppresses exceptions (nothing in tbot
                "mixins subclass their Initializer base directly (indirect subclasses are skipped by the cls.__bases__ "
                "test in Machine.__enter__ — outside the property's domain, DESIGN C13)"]
 
-CM = "pciqs"
+CM = "plciqs"
 
 
 def run_impl(line):
@@ -64,6 +66,8 @@ def gen_bases(rng):
         bases = ["c" + sty()] + pre + ini + post + ["s" + sty()]
     if rng.random() < 0.7:
         bases.insert(rng.randint(0, len(bases)), "h")
+    if rng.random() < 0.3:
+        bases.insert(rng.randint(0, len(bases)), "l" + sty())
     return bases
 
 
@@ -132,6 +136,8 @@ def exhaustive(params):
             if wpos is not None:
                 ini.insert(wpos, "w")
             comps.append(["pg"] * npre + ["ck"] + ini + ["sg"] + ["qk"] * npost + ["h"])
+            if npre == 0 and npost == 0:
+                comps.append(["lk", "cg"] + ini + ["sg", "h"])
     bodies = [[], ["["], ["[", "["], ["[", "[", "["]]
     for bases in comps:
         pts = fault_points(bases) + ["body"]
@@ -154,10 +160,10 @@ def _sessions(line):
 def classify(line, obs):
     toks = line.split()
     bases = toks[0].split(",")
-    ks = ["steps=%d" % len([b for b in bases if b != "h"]),
+    ks = ["steps=%d" % len([b for b in bases if b != "h"]), "connector=" + ("console" if any(b[0] == "l" for b in bases) else "stub"),
           "power=" + (str([b for b in bases if b[0] in "iw"].index("w")) if "w" in bases else "none"),
           "hook=%d" % ("h" in bases), "sessions=%d" % (len(toks) - 2), "delay=" + ("0" if toks[1] == "0" else ">0")]
-    canon = ["i" if b == "w" else b[0] for b in bases if b != "h"]
+    canon = ["i" if b == "w" else b[0] for b in bases if b != "h" and b[0] != "l"]
     ks.append("order=" + ("documented" if canon == sorted(canon, key="pcisq".index) else "shuffled"))
     for (gap, sty, faults, body), o in zip(_sessions(line), obs.split()):
         fl = [] if faults == "." else faults.split(",")
